@@ -319,7 +319,8 @@ func scenC20(x *Exec) {
 		}
 		p.Routes = append(p.Routes, r)
 	}
-	p.Interp = []string{"agg.$1", "agg.${1}x", "cost$$", "$x.y", "${notavar}", "pre${HOST}post", "$HOST", "${GRAFANA_NET_ADDR}", "$GRAFANA_NET_API_KEY", "${GRAFANA_NET_USER_ID}", "$1${2}", "$", "a$", "${", "$host"}
+	p.Interp = []string{"agg.$1", "agg.${1}x", "cost$$", "$x.y", "${notavar}", "pre${HOST}post", "$HOST", "${GRAFANA_NET_ADDR}", "$GRAFANA_NET_API_KEY", "${GRAFANA_NET_USER_ID}", "$1${2}", "$", "a$", "${", "$host",
+		"$HOSTNAME", "${HOSTNAME}", "$HOST_ID", "$GRAFANA_NET_ADDR_BACKUP", "{$HOST}", "$HOST.example", "$HOST-1", "x$HOST$HOST", "${HOST", "$HOST}", "$GRAFANA_NET_USER_IDX ${GRAFANA_NET_USER_ID}0"}
 	x.Out.Sample = p
 	cfg0.Horizon = time.Hour
 	prop := "C20"
@@ -459,12 +460,8 @@ func scenC20(x *Exec) {
 		}
 		// interpolation
 		for i, probe := range p.Interp {
-			wantS := probe
-			wantS = strings.Replace(wantS, "${HOST}", "relayhost", -1)
-			wantS = strings.Replace(wantS, "$HOST", "relayhost", -1)
-			wantS = strings.Replace(wantS, "${GRAFANA_NET_ADDR}", "https://gnet.example/metrics", -1)
-			wantS = strings.Replace(wantS, "$GRAFANA_NET_API_KEY", "sekret", -1)
-			wantS = strings.Replace(wantS, "${GRAFANA_NET_USER_ID}", "4711", -1)
+			wantS := refInterpolate(probe, map[string]string{"HOST": "relayhost", "GRAFANA_NET_ADDR": "https://gnet.example/metrics",
+				"GRAFANA_NET_API_KEY": "sekret", "GRAFANA_NET_USER_ID": "4711"})
 			wantLine := "format = '" + wantS + "'\n"
 			if interp[i] != wantLine {
 				s.Fail(prop+":interpolation", "config text %q was read as %q, expected %q (only the documented variables are substituted)", "format = '"+probe+"'", strings.TrimSpace(interp[i]), strings.TrimSpace(wantLine))
@@ -475,4 +472,49 @@ func scenC20(x *Exec) {
 		x.Out.StateSig = fmt.Sprintf("routes=%d aggs=%d rw=%d black=%d", len(p.Routes), len(p.Aggs), len(p.Rw), len(p.Black))
 	})
 	finishRun(x, s, prop)
+}
+
+// refInterpolate is the documented meaning of config-file interpolation: $NAME (NAME being the longest run of letters, digits
+// and underscores) and ${NAME} are replaced when NAME is one of the documented variables; every other '$' sequence is text.
+func refInterpolate(in string, vars map[string]string) string {
+	var b strings.Builder
+	isName := func(c byte) bool {
+		return c == '_' || (c >= '0' && c <= '9') || (c >= 'a' && c <= 'z') || (c >= 'A' && c <= 'Z')
+	}
+	for i := 0; i < len(in); {
+		if in[i] != '$' || i+1 >= len(in) {
+			b.WriteByte(in[i])
+			i++
+			continue
+		}
+		if in[i+1] == '{' {
+			if j := strings.IndexByte(in[i+2:], '}'); j >= 0 {
+				name := in[i+2 : i+2+j]
+				if v, ok := vars[name]; ok {
+					b.WriteString(v)
+				} else {
+					b.WriteString(in[i : i+2+j+1])
+				}
+				i += 2 + j + 1
+				continue
+			}
+			b.WriteByte('$')
+			i++
+			continue
+		}
+		j := i + 1
+		for j < len(in) && isName(in[j]) {
+			j++
+		}
+		if v, ok := vars[in[i+1:j]]; ok {
+			b.WriteString(v)
+		} else {
+			b.WriteString(in[i:j])
+		}
+		if j == i+1 {
+			j = i + 1
+		}
+		i = j
+	}
+	return b.String()
 }
